@@ -1,8 +1,36 @@
 ------------------------------ MODULE MCCrash ------------------------------
 EXTENDS Crash
+Both == {"powerloss", "processdeath"}
+NoNeeds == [e \in {} |-> {}]
+\* pruning of the revert diffs / events of finalized heights: not an effect the statement names; the pruned data is dead only
+\* once the finalized height that makes it dead is durable
+PruneNeeds == [e \in {"prune"} |-> {"finalized"}]
 AllEffects == {"block", "indexes", "consensus", "diff", "finalized"}
-OneBatch == << AllEffects >>
-\* unsafe shapes (non-vacuity controls): the revert diff or the finalized height written separately
-DiffSeparate == << {"diff"}, AllEffects \ {"diff"} >>
-FinalizedSeparate == << AllEffects \ {"finalized"}, {"finalized"} >>
+WithPrune == AllEffects \cup {"prune"}
+\* removal of the tip (with its temporary copy), and the two stages of a tie break
+DelEffects == {"del-block", "del-indexes", "del-consensus", "del-diff"}
+DelTemp == DelEffects \cup {"temp"}
+Shape(n, st, lay, sy, nd, sf) == [name |-> n, stages |-> st, layout |-> lay, synced |-> sy, needs |-> nd, safe |-> sf]
+
+AllShapes == {
+  \* the intended shapes: one batch per stage
+  Shape("onebatch", <<AllEffects>>, <<AllEffects>>, <<TRUE>>, NoNeeds, Both),
+  Shape("onebatch-prune", <<WithPrune>>, <<WithPrune>>, <<TRUE>>, PruneNeeds, Both),
+  Shape("remove-onebatch", <<DelTemp>>, <<DelTemp>>, <<TRUE>>, NoNeeds, Both),
+  Shape("tiebreak", <<DelEffects, AllEffects>>, <<DelEffects, AllEffects>>, <<TRUE, TRUE>>, NoNeeds, Both),
+  \* admissible although it is not one write: dead data pruned afterwards
+  Shape("prune-after", <<WithPrune>>, <<AllEffects, {"prune"}>>, <<TRUE, TRUE>>, PruneNeeds, Both),
+  \* unsafe shapes (non-vacuity controls)
+  Shape("diff-separate", <<AllEffects>>, <<{"diff"}, AllEffects \ {"diff"}>>, <<TRUE, TRUE>>, NoNeeds, {}),
+  Shape("finalized-separate", <<AllEffects>>, <<AllEffects \ {"finalized"}, {"finalized"}>>, <<TRUE, TRUE>>, NoNeeds, {}),
+  Shape("genesis-two-writes", <<AllEffects>>, <<{"block", "indexes", "finalized"}, {"consensus", "diff"}>>, <<TRUE, TRUE>>, NoNeeds, {}),
+  Shape("prune-before", <<WithPrune>>, <<{"prune"}, AllEffects>>, <<TRUE, TRUE>>, PruneNeeds, {}),
+  Shape("temp-copy-first", <<DelTemp>>, <<{"temp"}, DelEffects>>, <<TRUE, TRUE>>, NoNeeds, {}),
+  Shape("tiebreak-shortcut", <<DelEffects, AllEffects>>, <<{"del-indexes"}, DelEffects \ {"del-indexes"}, AllEffects>>, <<TRUE, TRUE, TRUE>>, NoNeeds, {}),
+  \* atomic when unsynced bytes are lost, not atomic when the process dies: why the second crash model exists
+  Shape("prune-before-unsynced", <<WithPrune>>, <<{"prune"}, AllEffects>>, <<FALSE, TRUE>>, PruneNeeds, {"powerloss"}),
+  Shape("temp-copy-first-unsynced", <<DelTemp>>, <<{"temp"}, DelEffects>>, <<FALSE, TRUE>>, NoNeeds, {"powerloss"})
+}
+\* (always TRUE) one line per shape / crash model that is expected to expose a forbidden state
+Expect == (pc = 0 /\ ~crashed /\ model \notin shape.safe) => PrintT(<<"EXPECT", shape.name, model>>)
 =============================================================================
